@@ -382,7 +382,13 @@ class _GlobSplit(Generic[AnyStr]):
             else:
                 gstar = b'**' if is_bytes else '**'
                 is_globstarlong = False
-            parts.insert(0, _GlobPart(gstar, True, True, is_globstarlong, True, False))
+            if parts[0].is_globstar:
+                # The pattern already starts with a `globstar`, a second one in front of it adds nothing.
+                # Just make sure it follows links if the implicit one would.
+                if is_globstarlong and not parts[0].is_globstarlong:
+                    parts[0] = _GlobPart(gstar, True, True, True, parts[0].dir_only, False)
+            else:
+                parts.insert(0, _GlobPart(gstar, True, True, is_globstarlong, True, False))
 
         if self.no_abs and parts and parts[0].is_drive:
             raise ValueError('The pattern must be a relative path pattern')
